@@ -557,6 +557,11 @@ func classify(err error) string {
 	if msg == "already taken" {
 		return "ik-busy"
 	}
+	// an idempotency key that stored the outcome of another request (recognised by its text: the harness also has to
+	// build against trees that do not have the error yet)
+	if strings.Contains(msg, "idempotency key") && strings.Contains(msg, "has already been used for a different request") {
+		return "key-reused"
+	}
 	if errors.Is(err, ErrTransient) {
 		return "store-read" // an injected read failure came back to the caller
 	}
